@@ -7,7 +7,7 @@
    (corpus/C05/f_c05{b,c,d}.json -> open findings F-C05b..d; f_c05a.json is a regression case). *)
 From Coq Require Import NArith ZArith List Bool Arith.
 From Snap.Array Require Import ArrayDefs SyncModel.
-From Snap.Fix Require Import FixModel HistModel Witnesses.
+From Snap.Fix Require Import FixModel HistModel Witnesses RepairProofs PartialProofs Examples.
 Import ListNotations.
 
 (* the statement (Witnesses.fix_never_wrong), unfolded once so that it can be read here *)
@@ -62,3 +62,32 @@ Print Assumptions C05_witness_d.
 Theorem C05_witness_d_full_hash : all_fine (run false ops_d) = true /\ said_recovered (run false ops_d) 0 4 = false.
 Proof. exact witness_d_full_hash. Qed.
 Print Assumptions C05_witness_d_full_hash.
+
+(* The positive part: fix_never_wrong_partial.  PastHashInv (PartialProofs.past_hash_inv e ob) for a CHG entry e and the
+   block ob that the parity encoded at its position before the pending change:
+     past hash INVALID : nothing;   ZERO : ob = 0;   a data hash : blockcmp hash (length compared NOW) ob = true,
+   i.e. the recorded past hash is the hash of the old block AND it was taken over the length the comparison uses.
+   Under it, with the full hash size (reduced = false), whatever the damage and whatever the parity holds: when repair
+   succeeds, a bad CHG block that is not marked out-of-date (so: written back and counted as fixed) is NOT the old block.
+   The four findings are exactly the four ways to leave this hypothesis: a (repaired) the hash was not the old block's,
+   b the length differs, c ZERO although the parity encodes data, d reduced hash size. *)
+Theorem C05_fix_never_wrong_partial :
+  forall (hashf : bid -> N -> hval) (padz : bid -> N -> bool) (bs : N) (nlev pos : nat) (nosearch : bool) (fs0 : list (option fsdisk))
+         (failed : list fent) (rec : list penc) (buf : list bid) (jn : N) (failed' : list fent) (buf' : list bid) (jn' : N) (tags : list (N * list N)),
+    repair hashf padz bs nlev false pos nosearch fs0 failed rec buf jn = (ROk, failed', buf', jn', tags) ->
+    forall e', In e' failed' -> fe_bad e' = true -> fe_is SChg e' = true -> fe_ood e' = false ->
+    forall ob, past_hash_inv hashf padz bs e' ob -> vnth buf' (fe_idx e') <> ob.
+Proof. exact repair_never_accepts_old. Qed.
+Print Assumptions C05_fix_never_wrong_partial.
+
+(* the hypothesis is satisfiable, and is what the witnesses b and c break *)
+Example C05_past_hash_inv_holds :
+  past_hash_inv x_hashf x_padz x_bs (mkFE true false 0 (Some SChg) (x_hashf 11%N 1024%N) (Some (x_f1, 0%nat))) 11%N.
+Proof. exact x_past_hash_inv_holds. Qed.
+Example C05_past_hash_inv_broken_by_length :
+  ~ past_hash_inv x_hashf x_padz x_bs
+      (mkFE true false 0 (Some SChg) (x_hashf 11%N 1024%N) (Some (mkCF 1 100 200 0 4 false [mkFB SChg 0 (x_hashf 11%N 1024%N)], 0%nat))) 11%N.
+Proof. exact x_past_hash_inv_broken_by_length. Qed.
+Example C05_past_hash_inv_broken_by_zero :
+  ~ past_hash_inv x_hashf x_padz x_bs (mkFE true false 0 (Some SChg) HZero (Some (x_f1, 0%nat))) 22%N.
+Proof. exact x_past_hash_inv_broken_by_zero. Qed.
